@@ -31,6 +31,18 @@ DOCUMENTED = (TypeError, ValueError, KeyError, IndexError, SlotTakenError)
 
 ORIG_PENALTY_BASE = cmap.PENALTY_BASE
 
+# documented exceptions per call (docstrings of the container / setter methods)
+ALLOWED = {
+    'slot': ('TypeError', 'ValueError'), 'charge': ('TypeError', 'ValueError'),
+    'sadd': ('TypeError', 'ValueError'), 'srm': ('KeyError',), 'skilldel': ('KeyError',),
+    'rappend': ('TypeError', 'ValueError'), 'rinsert': ('TypeError', 'ValueError', 'IndexError'),
+    'rplace': ('TypeError', 'ValueError', 'SlotTakenError', 'IndexError'),
+    'requip': ('TypeError', 'ValueError'), 'rremove': ('ValueError', 'IndexError'),
+    'rfree': ('ValueError', 'IndexError'),
+    'fladd': ('ValueError',), 'flrm': ('KeyError',), 'ssadd': ('ValueError',), 'ssrm': ('KeyError',),
+    'read': ('KeyError',),
+}
+
 
 def num(x):
     """float/int value used when building eos objects from a rational token"""
@@ -97,16 +109,10 @@ class Impl:
             return self.handle(t)
         except DOCUMENTED as e:
             name = type(e).__name__
-            if isinstance(e, SlotTakenError):
-                name = 'SlotTakenError'
-            elif isinstance(e, KeyError):
-                name = 'KeyError' if type(e) is KeyError else 'Internal:' + name
-            elif isinstance(e, IndexError):
-                name = 'IndexError'
-            elif isinstance(e, ValueError):
-                name = 'ValueError' if type(e) is ValueError else 'Internal:' + name
-            elif isinstance(e, TypeError):
-                name = 'TypeError'
+            if type(e) not in (TypeError, ValueError, KeyError, IndexError, SlotTakenError):
+                return 'exn Internal:' + name
+            if name not in ALLOWED.get(t[0], ()):
+                return 'exn Internal:' + name      # not documented for this call
             return 'exn ' + name
         except Exception as e:  # noqa: undocumented failure
             return 'exn Internal:' + type(e).__name__
@@ -115,6 +121,8 @@ class Impl:
         c = t[0]
         if c == 'pen':
             return 'ok'
+        if c == 'counters':
+            return 'counters'
         if c == 'reset':
             self.__init__()
             return 'ok'
